@@ -244,6 +244,12 @@ func (r *Result) finish(verifDir string, start time.Time, seed int, checkerCmd s
 	if len(samples) == 0 {
 		cov["samples"] = []any{"no obligations were produced"}
 	}
+	if r.Assumptions == nil {
+		r.Assumptions = []string{}
+	}
+	r.Assumptions = append(r.Assumptions,
+		"the analysed program is /repo's working tree as type-checked by go/packages; user-supplied callbacks, coercers, providers and formatters are outside it",
+		"no unsafe, cgo or go:linkname in the module")
 	ev := map[string]any{
 		"property_id": r.Prop,
 		"tier":        r.Tier,
